@@ -110,6 +110,8 @@ type frame struct {
 }
 
 type interp struct {
+	assume map[string]string // document path -> nil | empty | nonempty (case analysis of the precedence functions)
+	ranged []string          // document lists actually iterated
 	c      *Ctx
 	events []event
 	loops  []loopInfo
@@ -551,6 +553,12 @@ func (in *interp) rangeStmt(fr *frame, s *ast.RangeStmt) {
 		return
 	}
 	if x != nil && x.k == avDoc {
+		if st, has := in.assume[docStringLoops(x.doc)]; has {
+			if st != "nonempty" {
+				return // nothing to iterate under this case
+			}
+		}
+		in.ranged = append(in.ranged, docStringLoops(x.doc))
 		t := info.TypeOf(s.X)
 		li := loopInfo{path: docStringLoops(x.doc), pos: s.Pos(), fn: fr.fi, expr: exprStr(s.X)}
 		step := pstep{index: true}
@@ -609,6 +617,24 @@ func (in *interp) rangeStmt(fr *frame, s *ast.RangeStmt) {
 // and their negation / conjunction / disjunction.
 func (in *interp) constCond(fr *frame, e ast.Expr) (bool, bool) {
 	e = core.Unparen(e)
+	if len(in.assume) > 0 {
+		info := fr.fi.Pkg.TypesInfo
+		cd := core.Cond{Kind: core.CondBool, Expr: e}
+		if x, nonNil, ok := core.NilTest(info, cd); ok {
+			if v := in.eval(fr, x); v.k == avDoc {
+				if st, has := in.assume[docStringLoops(v.doc)]; has {
+					return (st != "nil") == nonNil, true
+				}
+			}
+		}
+		if x, empty, ok := core.EmptyTest(info, cd); ok {
+			if v := in.eval(fr, x); v.k == avDoc {
+				if st, has := in.assume[docStringLoops(v.doc)]; has {
+					return (st != "nonempty") == empty, true
+				}
+			}
+		}
+	}
 	switch x := e.(type) {
 	case *ast.UnaryExpr:
 		if x.Op == token.NOT {
